@@ -553,3 +553,24 @@ def hpm_at_sampler_and_parameter_condition(S):
     S.forall("f-is-the-data-function-at-the-same-row", f, lambda q: zreal(f.val.at(q)) == w.fdata.value_terms(w.sample_row(0, q[0])["t"] + w.sample_row(0, q[0])["x"])[0])
     Dv = kw["D"]
     S.ensure("D-is-the-learnable-parameter", Dv.val.numel_concrete() == 1 and z3.eq(z3.simplify(zreal(Dv.val.at([(), ()]))), z3.simplify(zreal(w.D.f["_t"].val.at([(), ()])))))
+
+
+@scenario("C04", [C + "SingleModuleCondition.forward", "torchphysics.utils.user_fun.UserFunction._set_input_args_for_function", "torchphysics.utils.user_fun.UserFunction.__call__"], configs=["two-defaults-each"], bounded=BOUND)
+def residual_and_data_function_with_several_default_arguments(S):
+    """a residual and a data function that each declare TWO default arguments nobody supplies: inside the condition
+    each default reaches the parameter it was declared for (by name), the other arguments are bound as usual"""
+    w = World(S)
+    sc, of = S.tensor("default_scale", [1]), S.tensor("default_offset", [1])
+    am, sh = S.tensor("default_amp", [1]), S.tensor("default_shift", [1])
+    res = RowFn("res2d", ["u", "x", "f", "scale", "offset"], 2, {"u": 2, "x": 2, "f": 1, "scale": 1, "offset": 1}, defaults={"scale": sc, "offset": of})
+    fdata = RowFn("f2d", ["x", "t", "amp", "shift"], 1, {"x": 2, "t": 1, "amp": 1, "shift": 1}, defaults={"amp": am, "shift": sh})
+    cond = S.new(C + "SingleModuleCondition", w.model.obj, w.sobj, res, w.E, reduce_fn=w.Rd, data_functions={"f": fdata})
+    S.method(cond, "forward")
+    S.ensure("residual-and-data-function-evaluated-once", len(res.calls) == 1 and len(fdata.calls) == 1)
+    if not (len(res.calls) == 1 and len(fdata.calls) == 1):
+        return
+    kr, kf = res.calls[0]["kwargs"], fdata.calls[0]["kwargs"]
+    S.ensure("residual-gets-exactly-its-declared-names", sorted(kr) == ["f", "offset", "scale", "u", "x"])
+    S.ensure("residual-defaults-reach-the-parameters-they-were-declared-for", kr.get("scale") is sc and kr.get("offset") is of)
+    S.ensure("data-function-gets-exactly-its-declared-names", sorted(kf) == ["amp", "shift", "t", "x"])
+    S.ensure("data-function-defaults-reach-the-parameters-they-were-declared-for", kf.get("amp") is am and kf.get("shift") is sh)
